@@ -12,6 +12,6 @@ import (
 // handle would.
 func ZzNewServiceGenerator(name string, sg api.ServiceGenerator) ServiceGenerator {
 	running := atomic.NewBool(true)
-	h := &transportHandle{name: name, Running: running, Features: map[api.Feature]struct{}{api.FeatureServiceGenerator: {}}}
+	h := &transportHandle{name: name, Running: running}
 	return &serviceGenerator{handle: h, Running: running, ServiceGenerator: sg}
 }
